@@ -305,6 +305,23 @@ def main():
             wls = [w for w in wls if w.get("replayable")]  # replay handled below
         for w in wls:
             res = run_workload(hbins[w["harness"]], w["args"], "%s_%s" % (pid, w["tag"]), w.get("env"))
+            # consequences of a known finding: a failing line whose key token (the last input token, e.g. the id of the
+            # solver run) is the key of a line matched by the finding itself, and which matches the finding's
+            # "consequences" patterns, is the same finding seen downstream (e.g. the lost solution of that very run)
+            cause_keys = {}
+            for line, verdict in res:
+                if not verdict.startswith("ok"):
+                    k = match_known(pid, line, known, verdict)
+                    if k is not None and "consequences" in k:
+                        cause_keys.setdefault(k["id"], set()).add(line.split(" => ")[0].split(" ")[-1])
+            def consequence_of_known(line, verdict):
+                for k in known.get("findings", []):
+                    c = k.get("consequences")
+                    if k["property"] != pid or not c or k["id"] not in cause_keys:
+                        continue
+                    if re.search(c["match"], line) and re.search(c["verdict_match"], verdict) and line.split(" => ")[0].split(" ")[-1] in cause_keys[k["id"]]:
+                        return k
+                return None
             for line, verdict in res:
                 stats["evaluations"] += 1
                 op = line.split(" ", 1)[0]
@@ -317,7 +334,7 @@ def main():
                     if len(samples) < 12 and (stats["by_op"][op] in (1, 50)):
                         samples.append({"line": line[:400], "verdict": verdict[:200]})
                     continue
-                k = match_known(pid, line, known, verdict)
+                k = match_known(pid, line, known, verdict) or consequence_of_known(line, verdict)
                 if k is not None:
                     known_hits[k["id"]] = k
                     continue
